@@ -580,7 +580,9 @@ func CheckDecode(d *GDoc, pb lib.PBus, payloads [][]byte) ([]finding, lib.Tok) {
 				if got != want {
 					pos := int(ps.Start)
 					sig := "c10-decode-mismatch"
-					if s.BE && pos/8 == (pos+int(s.Size)-1)/8 && pos%8 != 8-pos%8-int(s.Size) {
+					// D08 exactly: big endian, one byte, asymmetric, AND the value read is the LSB-anchored one
+					if s.BE && pos/8 == (pos+int(s.Size)-1)/8 && pos%8 != 8-pos%8-int(s.Size) && pos/8 < len(data) &&
+						got == (uint64(data[pos/8])>>uint(pos%8))&(uint64(1)<<s.Size-1) {
 						sig = "c10-decode-be-one-byte"
 					}
 					out = append(out, finding{sig, fmt.Sprintf("message %q signal %q %d|%d be=%v payload %x: Decode raw %d, DBC rule %d", pm.Name, s.Name, s.Start, s.Size, s.BE, data, got, want)})
